@@ -301,6 +301,7 @@ func execute(t tcase, level int) (out runOut) {
 	st := buildState(t)
 	out.st = st
 	start := map[int]uint64{}
+	var enterGas []uint64
 	bad := func(s string) {
 		if len(out.viol) < 4 {
 			out.viol = append(out.viol, s)
@@ -310,8 +311,32 @@ func execute(t tcase, level int) (out runOut) {
 		OnEnter: func(depth int, typ byte, from, to common.Address, input []byte, gas uint64, value *big.Int) {
 			out.addrs[to] = true
 			out.addrs[from] = true
+			enterGas = append(enterGas, gas)
 			if vm.OpCode(typ) != vm.SELFDESTRUCT {
 				start[depth+1] = gas
+			}
+		},
+		OnExit: func(depth int, output []byte, gasUsed uint64, err error, reverted bool) {
+			if len(enterGas) == 0 {
+				bad("OnExit without OnEnter")
+				return
+			}
+			given := enterGas[len(enterGas)-1]
+			enterGas = enterGas[:len(enterGas)-1]
+			if gasUsed > given {
+				bad(fmt.Sprintf("frame at depth %d used %d gas > %d given", depth, gasUsed, given))
+			}
+			// an exceptional halt consumes all the gas of its frame (the failed prechecks of
+			// evm.Call/evm.create hand the gas back; pre-Homestead code-store OOG keeps it)
+			switch cl := errClass(err); cl {
+			case 0, 1, 9, 10, 15:
+			default:
+				if cl == 14 && level == 0 {
+					break
+				}
+				if gasUsed != given {
+					bad(fmt.Sprintf("exceptional halt (class %d) at depth %d returned %d of %d gas", cl, depth, given-gasUsed, given))
+				}
 			}
 		},
 		OnOpcode: func(pc uint64, op byte, gas, cost uint64, scope tracing.OpContext, rData []byte, depth int, err error) {
